@@ -89,3 +89,24 @@ Fixpoint avl (t : tree) : Prop := match t with
   | E => True
   | N _ l _ b r => avl l /\ avl r /\ b = height r - height l /\ -1 <= b <= 1 end.
 Definition bst (t : tree) : Prop := sset (elements t).
+
+(* ---- int64 range of keys; reachable worlds -------------------------------- *)
+Definition MINI : Z := -9223372036854775808.
+Definition in_range (x : Z) : Prop := MINI <= x <= MAXI.
+Definition op_in_range (o : op) : Prop := match o with
+  | Ins _ i | Del _ i | Find _ i | FindLE _ i | ItFrom _ i => in_range i
+  | _ => True end.
+Definition keys_in_range (ops : list op) : Prop := Forall op_in_range ops.
+(* worlds reachable from [init] by any sequence of operations with int64 keys
+   (no well-formedness of tree / iterator indices is needed) *)
+Inductive reach : world -> Prop :=
+  | reach_init : reach init
+  | reach_step w o : reach w -> op_in_range o -> reach (fst (step w o)).
+
+(* abstraction of a concrete iterator / world (node identities forgotten) *)
+Definition abs_iter (it : iter) : aiter :=
+  {| atree := itree it;
+     aended := match inode it with None => true | Some _ => false end;
+     aval := ival it |}.
+Definition abs_world (w : world) : aworld :=
+  {| asets := map (fun ts => elements (tr ts)) (trees w); aiters := map abs_iter (iters w) |}.
